@@ -8,11 +8,11 @@ from __future__ import annotations
 
 import loadergen as L
 
-KEYS = ["csv", "df_str", "df_nat", "parquet"]
+KEYS = ["csv", "df_str", "df_nat", "parquet", "pq_nat"]
 
 
 def run(ctx):
-    n = 100 if ctx.tier == "quick" else 6000      # + directed tables: quick ~310 tables, thorough ~6500
+    n = 60 if ctx.tier == "quick" else 6000       # + directed tables: quick ~365 tables, thorough ~6800
     ctx.cov["rule"] = ("one case = one content table (structure 0-2 identifiers, 1-3 measures/attributes over the 8 scalar types, 0-5 rows, "
                        "at most one labelled focus cell, 0-3 structural violations) supplied as CSV, DataFrame of str, DataFrame with "
                        "native dtypes and Parquet; distinct = (component types/roles, focus family+value, violations, row count)")
